@@ -1,0 +1,56 @@
+//go:build verif
+
+package encoding
+
+// Contracts for the length-prefixed Protocol Buffers stream encoding
+// (property C22). Comment-only file: compiled only under the "verif" build
+// tag, contains no code. The "//@" lines are read by /verif/govc.
+// rpos/rbyte/uvlen/uvbyte/uvat/uvatlen/uvcanon/psize/pbyte are the abstract
+// vocabulary of the trusted wire contracts (govc/externs/wire.spec);
+// wcalls/accepted are the writer ghosts of the trusted io contracts.
+
+// Between calls the encoder's scratch buffer is empty.
+//@ func NewProtobufEncoder
+//@   fresh result
+//@   ensures result != nil && len(result.buffer) == 0 && result.writer == writer
+
+// Encode hands the writer, in one Write, exactly
+//   varint(n) ++ wire(message)   with n == len(wire(message)) == Size(message).
+//@ func (*ProtobufEncoder).Encode
+//@   requires e != nil && len(e.buffer) == 0
+//@   ensures[empty] len(e.buffer) == 0 && e.writer == old(e.writer)
+//@   at call io.Writer.Write assert[frame] arg0 == old(e.writer) && len(arg1) == uvlen(psize(message)) + psize(message)
+//@   at call io.Writer.Write assert[frame] forall i in 0..uvlen(psize(message)) :: arg1[i] == uvbyte(psize(message), i)
+//@   at call io.Writer.Write assert[frame] forall i in 0..psize(message) :: arg1[uvlen(psize(message)) + i] == pbyte(message, i)
+//@   ensures[once] result == nil ==> wcalls[e.writer] == old(wcalls[e.writer]) + 1 && accepted[e.writer] == old(accepted[e.writer]) + uvlen(psize(message)) + psize(message)
+//@   ensures[once] wcalls[e.writer] <= old(wcalls[e.writer]) + 1
+
+//@ func EncodeProtobuf
+//@   ensures[once] result == nil ==> wcalls[writer] == old(wcalls[writer]) + 1 && accepted[writer] == old(accepted[writer]) + uvlen(psize(message)) + psize(message)
+
+// bufferWithSize returns a buffer of exactly the requested size.
+//@ func (*ProtobufDecoder).bufferWithSize
+//@   requires d != nil && 0 <= size
+//@   ensures len(result) == size && d.reader == old(d.reader)
+
+// Decode reads a varint length L at the reader's position; a declared length
+// above the limit is rejected before any buffer is obtained; otherwise
+// exactly the next L bytes of the stream are handed to proto.Unmarshal and
+// the reader has advanced by exactly the prefix and the L bytes. If the
+// stream holds varint(n) at the reader's position, L == n.
+//@ func (*ProtobufDecoder).Decode
+//@   requires d != nil
+//@   at call bufferWithSize assert[limit] arg1 <= protobufDecoderMaximumAllowedMessageSize && arg1 == uvat(d.reader, old(rpos[d.reader])) && rpos[d.reader] == old(rpos[d.reader]) + uvatlen(d.reader, old(rpos[d.reader]))
+//@   at call proto.Unmarshal assert[payload] len(arg0) == uvat(d.reader, old(rpos[d.reader])) && forall i in 0..len(arg0) :: arg0[i] == rbyte(d.reader, old(rpos[d.reader]) + uvatlen(d.reader, old(rpos[d.reader])) + i)
+//@   at call proto.Unmarshal assert[roundtrip] forall n in 0..protobufDecoderMaximumAllowedMessageSize+1 :: uvcanon(d.reader, old(rpos[d.reader]), n) ==> len(arg0) == n && forall i in 0..n :: arg0[i] == rbyte(d.reader, old(rpos[d.reader]) + uvlen(n) + i)
+//@   at call proto.Unmarshal assert[payload] arg1 == message
+//@   ensures[reject] result == nil ==> uvat(d.reader, old(rpos[d.reader])) <= protobufDecoderMaximumAllowedMessageSize
+//@   ensures[consumed] result == nil ==> rpos[d.reader] == old(rpos[d.reader]) + uvatlen(d.reader, old(rpos[d.reader])) + uvat(d.reader, old(rpos[d.reader]))
+//@   ensures[consumed] d.reader == old(d.reader)
+
+//@ func NewProtobufDecoder
+//@   fresh result
+//@   ensures result != nil && result.reader == reader
+
+//@ func DecodeProtobuf
+//@   ensures[consumed] result == nil ==> uvat(reader, old(rpos[reader])) <= protobufDecoderMaximumAllowedMessageSize && rpos[reader] == old(rpos[reader]) + uvatlen(reader, old(rpos[reader])) + uvat(reader, old(rpos[reader]))
